@@ -1,6 +1,7 @@
 //! The graph world: programs over the public combinators, executed on the real engine in
 //! lock-step with the reference models R1/R2/R3 (DESIGN §3-§6).
 
+pub mod differential;
 pub mod driver;
 pub mod families;
 pub mod fault;
